@@ -15,7 +15,7 @@ PROPERTY = "C04"
 LEVEL = "exploration"
 NEED_EXT = True
 REQUIRED = ["rows.single", "rows.subset", "rows.permutation", "rows.repeat", "state.unchanged", "pickle",
-            "clone_with_fitted_parameters", "exception.balanced_predictions", "asan.criterion_copy", "accessors.pure", "rows.buffer_refilled_in_place", "poisoned_allocator", "upstream.rowwise_calls_judged"]
+            "clone_with_fitted_parameters", "exception.balanced_predictions", "asan.criterion_copy", "accessors.pure", "rows.buffer_refilled_in_place", "poisoned_allocator", "upstream.rowwise_calls_judged", "second_life.copies", "refusing_local.batches"]
 RULE = ("every registered class with row-wise methods x configurations x label sets x batches made of training rows, "
         "perturbed rows, far rows (buckets / cells / leaves unseen at training time), exact duplicates and a single "
         "row; non-trivial = batch with >= 2 distinct rows routed to different buckets or classes; distinct = distinct "
@@ -42,6 +42,8 @@ def cases(tier, seed):
         out.append({"gen": "balanced", "id": "balanced-%d" % k, "sub": seed * 1009 + k})
     for k in range(3):
         out.append({"gen": "criterion", "id": "criterion-asan-%d" % k, "sub": seed * 1009 + k, "flavour": "asan"})
+    for k in range(6 if tier == "quick" else 40):
+        out.append({"gen": "refusing", "id": "refusing-local-%d" % k, "sub": seed * 1009 + k})
     # upstream's own tests as a workload: every row-wise call they make on a registered class is judged
     from vrt.props.c02 import UPSTREAM_QUICK, upstream_files
     for f in upstream_files(UPSTREAM_QUICK[:6] if tier == "quick" else None):
@@ -322,6 +324,36 @@ def run_rows(case, ctx):
                     except Exception as e:
                         ctx.violation(K + "clone_with_fitted/unusable/%s" % type(e).__name__,
                                       "the clone with fitted parameters cannot predict: %s" % str(e)[:150], cfg=cfg)
+    # ---- second life: the same object fitted, queried, fitted again on the other training set; its pickled copy and its
+    # clone with fitted parameters answer like the object itself (a memo that survives the refit lives only in one)
+    for vi in range(len(spec.variants)):
+        cfg = {"class": spec.name, "variant": vi, "history": "fit A, query, fit B, then copies", "sub": sub}
+        try:
+            est = spec.make(vi)
+            A_, B_ = spec.data(numpy.random.RandomState(sub + 1)), spec.data_b(numpy.random.RandomState(sub + 2))
+            numpy.random.seed(sub + 3)
+            spec.fit(est, A_)
+            spec.outputs(est, spec.query(numpy.random.RandomState(sub + 4), A_))
+            numpy.random.seed(sub + 3)
+            spec.fit(est, B_)
+            Q = spec.query(numpy.random.RandomState(sub + 4), B_)
+            ref = spec.outputs(est, Q)
+        except Exception:
+            ctx.excluded("second life: refit not possible for this configuration")
+            continue
+        for how, mk in (("pickle", lambda: pickle.loads(pickle.dumps(est))),
+                        ("clone_with_fitted", lambda: clone_with_fitted_parameters(est))):
+            try:
+                cp = mk()
+                oc = spec.outputs(cp, Q)
+            except Exception:
+                ctx.excluded("second life: %s not possible" % how)
+                continue
+            ctx.hit("second_life.copies")
+            bad = [m for m in ref if m not in oc or not same_out(ref[m], oc[m])]
+            if bad:
+                ctx.violation(K + "%s/outputs-differ/after-refit" % how, "after fit, query and a refit of the same "
+                              "object, %s of its %s copy differs from the object's own" % (bad[0], how), cfg=cfg)
     ctx.cls("class=" + spec.name)
     ctx.sample({"class": spec.name, "methods": list(spec.rowwise)})
 
@@ -346,6 +378,96 @@ def run_balanced(case, ctx):
     ctx.check(full.min() >= 0 and full.max() < 3, "C04/ConstraintKMeans/balanced/invalid-label", "invalid label")
     ctx.extra["balanced_rows_batch_dependent"] = dep
     ctx.excluded("documented exception: balanced prediction row differs from single-row prediction", dep)
+
+
+def run_refusing(case, ctx):
+    """Piecewise estimators whose local model refuses some rows at predict time (an isotonic model with
+    out_of_bounds='raise', an encoder with handle_unknown='error'): a batch that holds such a row is refused or
+    every other row is answered exactly as when it is asked alone - the refusal of one row never changes the answer
+    for another."""
+    from sklearn.base import BaseEstimator, RegressorMixin, ClassifierMixin
+    from sklearn.linear_model import LinearRegression, LogisticRegression
+    from sklearn.tree import DecisionTreeRegressor, DecisionTreeClassifier
+    from mlinsights.mlmodel import PiecewiseRegressor, PiecewiseClassifier
+    rng = numpy.random.RandomState(case["sub"] % (2 ** 31))
+    clf = bool(case["sub"] % 2)
+    limit = 1.2
+
+    class Refusing(BaseEstimator):
+        def fit(self, X, y, sample_weight=None):
+            self.inner_ = (LogisticRegression() if clf else LinearRegression()).fit(X, y, sample_weight=sample_weight)
+            if clf:
+                self.classes_ = self.inner_.classes_
+            # like IsotonicRegression(out_of_bounds="raise"): the bounds are those of the rows THIS model was trained on,
+            # so a local model refuses rows that the global fallback model accepts
+            self.lo_, self.hi_ = float(numpy.min(X[:, -1])), float(numpy.max(X[:, -1]))
+            return self
+
+        def _check(self, X):
+            v = numpy.asarray(X)[:, -1]
+            if ((v < self.lo_) | (v > self.hi_)).any():
+                raise ValueError("a value of the last feature is out of the bounds seen by this model")
+
+        def predict(self, X):
+            self._check(X)
+            return self.inner_.predict(X)
+
+        def predict_proba(self, X):
+            self._check(X)
+            return self.inner_.predict_proba(X)
+
+    Loc = type("RefusingClassifier" if clf else "RefusingRegressor",
+               (ClassifierMixin if clf else RegressorMixin, Refusing), {})
+    n = int(rng.randint(80, 200))
+    X = rng.randn(n, 2)
+    # the last feature is narrow where x0 < 0 and wide elsewhere: buckets (splits on x0) have different bounds
+    X[:, -1] = numpy.where(X[:, 0] < 0, rng.uniform(-0.3, 0.3, n), rng.uniform(-2.0, 2.0, n))
+    # not linear in x0: a bucket's local model and the global fallback model give different answers
+    y = ((X[:, 0] + 0.05 * X[:, 1] > 0.3).astype(int) if clf else X[:, 0] ** 2 + numpy.sin(3 * X[:, 0]) + 0.05 * X[:, 1])
+    if clf:
+        y[:4] = [0, 1, 0, 1]
+    binner = (DecisionTreeClassifier if clf else DecisionTreeRegressor)(max_depth=2, min_samples_leaf=10, random_state=0)
+    for n_jobs in (None, 2):
+        m = (PiecewiseClassifier(binner, Loc(), n_jobs=n_jobs, random_state=0) if clf
+             else PiecewiseRegressor(binner, Loc(), n_jobs=n_jobs))
+        cfg = {"kind": "classifier" if clf else "regressor", "n": n, "n_jobs": n_jobs, "sub": case["sub"]}
+        K = "C04/%s/" % type(m).__name__
+        try:
+            m.fit(X, y)
+        except Exception as e:
+            ctx.excluded("refusing-local: fit raised %s" % type(e).__name__)
+            continue
+        buckets = numpy.asarray(m.transform_bins(X))
+        for meth in (["predict", "predict_proba"] if clf else ["predict"]):
+            f = getattr(m, meth)
+            for b in numpy.unique(buckets)[:4]:
+                rows = X[buckets == b]
+                if len(rows) < 2:
+                    continue
+                a = rows[:1].copy()
+                r = rows[1:2].copy()
+                hi_b = float(rows[:, -1].max())
+                if hi_b > 1.0:
+                    continue                    # a wide bucket: nothing between its bounds and the global ones
+                r[0, -1] = hi_b + 0.7           # outside the bucket's bounds, inside the global ones
+                if int(numpy.asarray(m.transform_bins(r))[0]) != int(b):
+                    continue
+                alone = numpy.asarray(f(a))
+                for order, batch in (("accepted-first", numpy.vstack([a, r])), ("refused-first", numpy.vstack([r, a]))):
+                    ctx.hit("refusing_local.batches")
+                    try:
+                        got = numpy.asarray(f(batch))
+                    except Exception:
+                        ctx.hit("refusing_local.batch_refused")
+                        continue
+                    row = got[0] if order == "accepted-first" else got[1]
+                    if not row_equal(alone[0], row, False):
+                        ctx.violation(K + "%s/batch-dependent/refused-row-in-batch" % meth, "a row answered %r alone is "
+                                      "answered %r when a row that its local model refuses is in the same batch (%s)" % (
+                                          numpy.asarray(alone[0]).ravel()[:3].tolist(),
+                                          numpy.asarray(row).ravel()[:3].tolist(), order), cfg=cfg)
+                        break
+    ctx.cls("refusing-local-model")
 
 
 def run_upstream(case, ctx):
@@ -486,7 +608,8 @@ def run_criterion(case, ctx):
 
 
 def run_case(case, ctx):
-    {"rows": run_rows, "balanced": run_balanced, "criterion": run_criterion, "upstream": run_upstream}[
+    {"rows": run_rows, "balanced": run_balanced, "criterion": run_criterion, "upstream": run_upstream,
+     "refusing": run_refusing}[
         case["gen"]](case, ctx)
 
 
